@@ -421,14 +421,23 @@ class Interp:
             return v[1]
         return (("P", v), ())
 
-    def deref_value(self, S, v, max_depth=3):
-        """value behind (possibly nested) references"""
+    def deref_value(self, S, v, max_depth=3, ty=None):
+        """value behind (possibly nested) references; `ty` is the static type of v when known (needed to
+        dereference a pointer whose target is not a named location, e.g. a reference-typed parameter)"""
         for _ in range(max_depth):
             if isinstance(v, tuple) and v[0] == "ref":
                 loc = v[1]
                 nv = S.read(loc)
                 if root_is_promoted(loc):
                     nv = promoted_read(loc, nv)
+                v = nv
+                if ty is not None and ty.get("k") in ("ref", "ptr"):
+                    ty = ty["to"]
+            elif ty is not None and ty.get("k") in ("ref", "ptr") and isinstance(v, tuple) and v[0] not in ("k",):
+                nv = S.read((("P", v), ()))
+                ty = ty["to"]
+                if sv_type(nv) is None and isinstance(nv, tuple) and nv[0] not in ("agg", "ref", "upd", "vagg"):
+                    set_ty(nv, tykey(ty))
                 v = nv
             else:
                 break
@@ -979,7 +988,7 @@ def stable(sv, depth=0):
     """line-number-free rendering of a SV used in site keys"""
     if not isinstance(sv, tuple) or not sv:
         return str(sv)
-    if depth > 4:
+    if depth > 6:
         return "_"
     h = sv[0]
     r = lambda x: stable(x, depth + 1)
